@@ -31,7 +31,7 @@ use crate::{
     c20::COIN_NAMES,
     fields::{F128, F62, F64},
     genair::{build_main_columns, public_inputs, GenAir, GenInputs, Knobs, Spec},
-    protocol::{draw_instance, reset_histories, set_role, Instance, Limits, RecordingCoin, VERIFIER},
+    protocol::{draw_instance, reset_histories, set_role, CoinEvent, Instance, Limits, RecordingCoin, VERIFIER},
     sched,
     streams::{hex, SimReader, SimWriter},
     wire::{sim_link, Img},
@@ -243,6 +243,11 @@ where
         Err(e) => simcore::harness_error(&format!("cannot parse an honest proof: {e}: {}", inst.describe())),
     };
     let honest_opts = h.proof.options().clone();
+    // the honest query positions, from the prover's recorded transcript
+    let honest_positions = crate::protocol::history(crate::protocol::PROVER).iter().rev().find_map(|e| match e {
+        CoinEvent::DrawInts(_, _, _, v) => Some(v.clone()),
+        _ => None,
+    });
     let mutations = 24;
     let mix_mode = tape::f("c04.swarm", 4);
     stats::sample(|| format!("{{\"instance\":{},\"proof_bytes\":{},\"mutations\":{mutations}}}", inst.describe(), h.bytes.len()));
@@ -272,6 +277,7 @@ where
             1 => AcceptableOptions::OptionSet(vec![decoded.options().clone()]),
             _ => AcceptableOptions::MinConjecturedSecurity(0),
         };
+        let vh_before = crate::protocol::history(VERIFIER).len();
         match verify_with::<B, H>(decoded.clone(), &h.inputs, &policy) {
             Ok(Ok(())) => {},
             Ok(Err(_)) => {
@@ -298,6 +304,31 @@ where
                 },
                 Err(e) => ("component-parse-fails".to_string(), format!("component parse fails ({e})")),
             };
+            // A different nonce that passes the grinding check and happens to draw the same set of
+            // query positions is accepted by construction of the protocol. For tiny parameter
+            // sets that coincidence is likely (one query over a 16-point domain: 1 in 16), so it
+            // is judged under its own key; when the coincidence has probability below 2^-40 by
+            // the harness's own bound, the plain `nonce` key (never listed) is used.
+            let mut label = label;
+            if label == "nonce" {
+                if let Ok(p) = &verdict {
+                    let only_nonce = p.len() == original.len() && p.iter().zip(original.iter()).filter(|(a, b)| a != b).count() == 1;
+                    let new_pos = crate::protocol::history(VERIFIER)[vh_before..].iter().rev().find_map(|e| match e {
+                        CoinEvent::DrawInts(_, _, _, v) => Some(v.clone()),
+                        _ => None,
+                    });
+                    if let (true, Some(hp), Some(np)) = (only_nonce, honest_positions.as_ref(), new_pos) {
+                        let set = |v: &Vec<usize>| v.iter().copied().collect::<std::collections::BTreeSet<_>>();
+                        let (hs, ns) = (set(hp), set(&np));
+                        let lde = h.proof.lde_domain_size() as f64;
+                        let log_p = np.len() as f64 * ((hs.len() as f64).log2() - lde.log2());
+                        if hs == ns && log_p >= -40.0 {
+                            stats::count("probe.nonce_position_collision_by_chance", 1);
+                            label = "nonce-position-collision".to_string();
+                        }
+                    }
+                }
+            }
             let key = format!("{label}/{}", policy_name(policy_idx));
             fail!(
                 "tampered-proof-accepted-with-different-contents",
@@ -310,7 +341,120 @@ where
         }
         stats::count("outcome.accepted_and_parsed_equal", 1);
     }
-    Ok(())
+    regrind::<B, H>(inst, &h, &original)
+}
+
+/// The adaptive nonce fault: an attacker who replays the public transcript can search for a second
+/// nonce that draws the same set of query positions. With such a nonce nothing else in the proof
+/// has to change. Two variants: the substitute fails the proof-of-work check (must be rejected -
+/// the only place where the verifier's grinding check is what stands between the edit and
+/// acceptance), or passes it (accepted by construction: the recorded nonce-collision finding).
+/// Only attempted when the coincidence costs at most 2^10 candidates.
+fn regrind<B, H>(inst: &Instance, h: &Honest<B>, original: &[String]) -> Outcome
+where
+    B: StarkField + ExtensibleField<2> + ExtensibleField<3> + 'static,
+    H: ElementHasher<BaseField = B> + Sync + Send,
+{
+    use crypto::{DefaultRandomCoin, RandomCoin};
+    let ph = crate::protocol::history(crate::protocol::PROVER);
+    let Some((nq, lde, nonce, honest_pos)) = ph.iter().rev().find_map(|e| match e {
+        CoinEvent::DrawInts(n, d, nonce, v) => Some((*n, *d, *nonce, v.clone())),
+        _ => None,
+    }) else {
+        return Ok(());
+    };
+    let set = |v: &Vec<usize>| v.iter().copied().collect::<std::collections::BTreeSet<_>>();
+    let hs = set(&honest_pos);
+    let bits = nq as f64 * ((lde as f64).log2() - (hs.len() as f64).log2());
+    if bits > 10.0 || tape::f("c04.regrind", 2) == 0 {
+        return Ok(());
+    }
+    // rebuild the coin as it stood before the nonce was merged in: seed elements and reseeds only
+    // (draws do not change the seed, and the nonce merge resets the counter)
+    let rebuild = || -> Option<DefaultRandomCoin<H>> {
+        let mut coin: Option<DefaultRandomCoin<H>> = None;
+        for e in ph.iter() {
+            match e {
+                CoinEvent::New(bytes) => {
+                    let mut r = SliceReader::new(bytes);
+                    let mut elems = Vec::new();
+                    while r.has_more_bytes() {
+                        elems.push(B::read_from(&mut r).ok()?);
+                    }
+                    coin = Some(DefaultRandomCoin::new(&elems));
+                },
+                CoinEvent::Reseed(d) => coin.as_mut()?.reseed(<H::Digest as Deserializable>::read_from_bytes(d).ok()?),
+                CoinEvent::DrawInts(..) => break,
+                CoinEvent::Draw(..) => {},
+            }
+        }
+        coin
+    };
+    // sanity: the rebuilt coin reproduces the honest positions
+    match rebuild().map(|mut c| c.draw_integers(nq, lde, nonce)) {
+        Some(Ok(v)) if v == honest_pos => {},
+        _ => simcore::harness_error(&format!("transcript replay does not reproduce the query positions: {}", inst.describe())),
+    }
+    let grinding = h.proof.options().grinding_factor();
+    let want_pow_failure = grinding > 0 && tape::f("c04.regrind_kind", 2) == 1;
+    let start = tape::f("c04.regrind_start", 1 << 16);
+    let mut found = None;
+    for i in 0..4096u64 {
+        let cand = start.wrapping_add(i);
+        if cand == nonce {
+            continue;
+        }
+        let Some(mut c) = rebuild() else { break };
+        let pow_ok = c.check_leading_zeros(cand) >= grinding;
+        if pow_ok == want_pow_failure {
+            continue;
+        }
+        if matches!(c.draw_integers(nq, lde, cand), Ok(v) if set(&v) == hs) {
+            found = Some(cand);
+            break;
+        }
+    }
+    let Some(cand) = found else {
+        stats::count("outcome.regrind_search_exhausted", 1);
+        return Ok(());
+    };
+    let kind = if want_pow_failure { "nonce_regrind_same_positions_without_pow" } else { "nonce_regrind_same_positions_with_pow" };
+    stats::count(&format!("fault.{kind}"), 1);
+    stats::nontrivial();
+    let mut forged = h.proof.clone();
+    forged.pow_nonce = cand;
+    let Ok(Ok(decoded)) = guard(|| Proof::from_bytes(&forged.to_bytes())) else {
+        simcore::harness_error("re-encoded proof with a different nonce does not decode");
+    };
+    let policy = AcceptableOptions::OptionSet(vec![h.proof.options().clone()]);
+    match verify_with::<B, H>(decoded.clone(), &h.inputs, &policy) {
+        Ok(Ok(())) => {},
+        Ok(Err(_)) | Err(_) => {
+            stats::count("outcome.rejected", 1);
+            return Ok(());
+        },
+    }
+    stats::count("outcome.accepted", 1);
+    let same = matches!(parsed_contents_dyn::<B, H>(&decoded), Ok(p) if p == original);
+    if same {
+        simcore::harness_error("a proof with a different nonce parses to equal contents");
+    }
+    if want_pow_failure {
+        fail!(
+            "tampered-proof-accepted-with-different-contents",
+            "nonce-fails-proof-of-work/honest-option-set".to_string(),
+            "nonce {nonce} replaced by {cand}, which draws the same query positions but has fewer than {grinding} trailing zero bits: accepted :: {}",
+            inst.describe()
+        );
+    }
+    stats::count("probe.nonce_position_collision_by_search", 1);
+    fail!(
+        "tampered-proof-accepted-with-different-contents",
+        "nonce-position-collision/honest-option-set".to_string(),
+        "nonce {nonce} replaced by {cand} (found by replaying the public transcript: same query positions {:?}, proof of work satisfied): accepted with a different nonce :: {}",
+        honest_pos,
+        inst.describe()
+    );
 }
 
 // C05
